@@ -157,6 +157,8 @@ pub enum Ev {
     },
     Cancel { by: Origin, id: u32 },
     Connect { node: usize, port: usize, target: usize },
+    /// A connection added by the driver through a clone of an output port that it kept.
+    ConnectVia { node: usize, port: usize, conn: Conn },
     Fault { node: usize, kind: PanicKind },
     Blocked(u64),
     TimeRead { node: usize, t: i64 },
@@ -621,6 +623,8 @@ pub struct BenchSpec {
     pub clock: ClockSpec,
     pub tolerance_ns: Option<u64>,
     pub timeout_ms: u64,
+    /// The driver keeps a clone of every output port (for `Cmd::ConnectVia`).
+    pub hold_port_clones: bool,
 }
 
 impl BenchSpec {
@@ -635,6 +639,7 @@ impl BenchSpec {
             clock: ClockSpec { answers: vec![], schedules: vec![] },
             tolerance_ns: None,
             timeout_ms: 0,
+            hold_port_clones: false,
         }
     }
     /// Fully qualified name of node i.
@@ -1061,6 +1066,7 @@ pub struct Built {
     pub orphans: Vec<Mailbox<Node>>,
     pub init_res: Res,
     pub flavours: Vec<Flavour>,
+    pub out_clones: Vec<Vec<Output<Msg>>>,
 }
 
 fn conv_err(e: ExecutionError) -> E {
@@ -1345,6 +1351,7 @@ pub fn build(spec: &Arc<BenchSpec>, w: &Arc<W>) -> Built {
             outs_all[i].push(o);
         }
     }
+    let out_clones: Vec<Vec<Output<Msg>>> = if spec.hold_port_clones { outs_all.iter().map(|v| v.iter().map(|o| o.clone()).collect()).collect() } else { vec![] };
     let mut nodes: Vec<Option<Node>> = Vec::new();
     for (i, s) in spec.nodes.iter().enumerate() {
         let mut reqs = vec![];
@@ -1521,6 +1528,7 @@ pub fn build(spec: &Arc<BenchSpec>, w: &Arc<W>) -> Built {
         orphans,
         init_res: res,
         flavours: spec.nodes.iter().map(|n| n.flavour).collect(),
+        out_clones,
     }
 }
 
@@ -1560,6 +1568,9 @@ pub enum Cmd {
     DropAuto { slot: usize },
     /// Keep a clone of the key of `slot` alive in slot `to`.
     KeepClone { slot: usize, to: usize },
+    /// Adds a connection to output port `port` of `node` through a clone of the port kept
+    /// by the driver since before `init` (needs `BenchSpec::hold_port_clones`).
+    ConnectVia { node: usize, port: usize, conn: Conn },
     DropSim,
 }
 
@@ -1621,6 +1632,12 @@ fn exec_cmd_inner(b: &mut Built, cmd: &Cmd) -> Res {
                 return Res::Ok;
             }
             return Res::Skipped;
+        }
+        Cmd::ConnectVia { node, port, conn } => {
+            let fl = b.flavours.clone();
+            connect_out(&mut b.out_clones[*node][*port], &[*conn], &b.addrs, &b.bufs, &b.slots, &fl);
+            w.log(Ev::ConnectVia { node: *node, port: *port, conn: *conn });
+            return Res::Ok;
         }
         Cmd::IntoAuto { slot } => {
             if let Some((k, id)) = w.take_key(*slot) {
@@ -1860,7 +1877,8 @@ pub fn run_once(sc: &Scenario, prefix: &[u16], controlled: bool) -> RunOut {
     drop(w.take_parked());
     w.clear_keys();
     w.set_sched(None);
-    let Built { sched, addrs, bufs: bb, slots: ss, srcs, qsrcs, orphans, .. } = b;
+    let Built { sched, addrs, bufs: bb, slots: ss, srcs, qsrcs, orphans, out_clones, .. } = b;
+    drop(out_clones);
     drop(sched);
     drop(srcs);
     drop(qsrcs);
